@@ -156,7 +156,15 @@ impl Search {
             self.log_uci_info(depth, Some(start.elapsed().as_millis()), &pv);
         }
 
-        self.log(format!("bestmove {}", self.info.best_move.unwrap()).as_str());
+        // An interrupted first iteration leaves no best move: fall back to the first legal move
+        let best_move = self
+            .info
+            .best_move
+            .or_else(|| self.original_board.get_legal_moves().first().copied());
+        match best_move {
+            Some(ply) => self.log(format!("bestmove {ply}").as_str()),
+            None => self.log("bestmove 0000"),
+        }
     }
 
     /// Initializes the alpha-beta search and returns the best move found
